@@ -226,7 +226,7 @@ theorem line7_total (hv : Valid I) (ht : TopoGood topo) {S : List Name}
 /-- on a valid input one pass either succeeds or refuses with `unidentifiable` -/
 theorem step_error' (hv : Valid I) (ht : TopoGood topo) {e : Err} (h : step topo I = .error e) :
     e = .unidentifiable ∧ I.X ≠ [] ∧ I.G.districts.length = 1 ∧
-      (I.G.removeNodes I.X).districts.length = 1 := by
+      (I.G.removeNodes I.X).districts.length = 1 ∧ ∃ anc anc', Pre I anc anc' := by
   unfold step at h
   split at h
   · cases h
@@ -236,13 +236,15 @@ theorem step_error' (hv : Valid I) (ht : TopoGood topo) {e : Err} (h : step topo
     simp only at h
     split at h
     · cases h
-    · obtain ⟨anc', hanc'⟩ := ancestorsInclusive_total (I.G.removeInEdges I.X) I.Y
+    · rename_i hall
+      obtain ⟨anc', hanc'⟩ := ancestorsInclusive_total (I.G.removeInEdges I.X) I.Y
         (fun y hy => (mem_nodes_removeInEdges I.G hv.wf I.X y).mpr (hv.ysub y hy))
       rw [hanc'] at h
       simp only at h
       split at h
       · cases h
-      · unfold stepB at h
+      · rename_i hno
+        unfold stepB at h
         simp only at h
         have hgx : (I.G.removeNodes I.X).isConnected = .ok ((I.G.removeNodes I.X).districts.length == 1) := by
           unfold MG.isConnected
@@ -263,7 +265,8 @@ theorem step_error' (hv : Valid I) (ht : TopoGood topo) {e : Err} (h : step topo
           · rename_i hconn2
             cases h
             simp only [Except.ok.injEq] at hconn hconn2
-            exact ⟨rfl, by simpa using hXne, by simpa using hconn2, by simpa using hconn⟩
+            exact ⟨rfl, by simpa using hXne, by simpa using hconn2, by simpa using hconn, anc, anc',
+              ⟨by simpa using hXne, hanc, by simpa using hall, hanc', by simpa using hno⟩⟩
           · have hlen : (I.G.removeNodes I.X).districts.length = 1 := by
               simp only [Except.ok.injEq] at hconn
               simpa using hconn
